@@ -37,6 +37,10 @@ def bucket_allocator(F, R):
             ok = rel in ('>', '<') and want in l and want in r.replace('alignment', 'align')
             R.ob('CMP', 'CMP::%s::%s-shape' % (fnkey(al), v), ok, 'refusal condition `%s %s %s` (request compared with the bucket %s)' % (l, rel, r, want), g.where, al)
     # ---- stride agreement
+    def canon(t):
+        # express everything over the bucket layout: self.bucket_size is whatever new_uninit stored
+        s_ = sym_nstr(t) if isinstance(t, tuple) else t
+        return s_.replace('Layout::size(bucket_layout)', 'SIZE').replace('Layout::align(bucket_layout)', 'ALIGN')
     terms = {}
     nu = F.fn(PA + '::new_uninit')
     for a in agg_sites(nu, r'pool_allocator::PoolAllocator$'):
@@ -59,11 +63,8 @@ def bucket_allocator(F, R):
         terms['multiplier in allocate'] = (t, m)
     R.floor('stride expressions found', len(terms), 4)
 
-    def canon(t):
-        # express everything over the bucket layout: self.bucket_size is whatever new_uninit stored
-        s_ = sym_nstr(t)
-        return s_.replace('Layout::size(bucket_layout)', 'SIZE').replace('Layout::align(bucket_layout)', 'ALIGN')
     stored = terms.get('stored bucket_size (new_uninit)')
+    stored = (stored[0], stored[1]) if stored else None
     for nm, (t, site) in sorted(terms.items()):
         s_ = canon(t)
         if s_ == 'self.bucket_size' and stored:
@@ -73,6 +74,23 @@ def bucket_allocator(F, R):
     anchor = terms.get('divisor in calc_number_of_buckets') or list(terms.values())[0]
     R.ob('SYM-EQ', 'SYM-EQ::%s::stride-agreement' % PA, len(vals) == 1,
          '; '.join('%s = `%s`' % (nm, s_) for nm, (s_, site) in sorted(terms.items())) + ' - the stride used for addressing must equal the stride used for counting (otherwise buckets of a layout with size %% align != 0 are misaligned / miscounted)', anchor[1].where, anchor[1].fn)
+    # FixedSizePoolAllocator::new has its own copy of the construction
+    fx = F.find_fns(r'^iceoryx2_bb_memory::pool_allocator::FixedSizePoolAllocator::<.*>::new$')
+    if len(fx) != 1:
+        R.missing('FixedSizePoolAllocator::new')
+    else:
+        g = fx[0]
+        st2 = None
+        for a in agg_sites(g, r'pool_allocator::PoolAllocator$'):
+            names = a.node[2][1][3]
+            if 'bucket_size' in names:
+                st2 = (canon(sym_norm(sym(g, a.node[2][2][names.index('bucket_size')]))), a)
+        divs = [s for s in g.sites if s.i != 'T' and s.node[0] == 'a' and s.node[2][0] == 'bin' and s.node[2][1] == 'Div']
+        dv = canon(sym_norm(sym(g, divs[0].node[2][3]))) if len(divs) == 1 else None
+        # expand padded_bucket_size(layout) consistently with the heap variant's stored term
+        ref = canon(stored[0]) if stored else None
+        R.ob('SYM-EQ', 'SYM-EQ::iceoryx2_bb_memory::pool_allocator::FixedSizePoolAllocator::stride-agreement', st2 is not None and dv is not None and st2[0] == dv and (ref is None or st2[0] == ref),
+             'FixedSizePoolAllocator::new: stored bucket_size = `%s`, bucket-count divisor = `%s`, PoolAllocator::new_uninit stores `%s`' % (st2[0] if st2 else None, dv, ref), st2[1].where if st2 else g.file, g)
     # start is aligned to the bucket alignment
     for a in agg_sites(nu, r'pool_allocator::PoolAllocator$'):
         names = a.node[2][1][3]
